@@ -149,61 +149,13 @@ Definition print_piecewise (D : list id) (x : id) (ps0 : list (cond * expr)) : o
   | _ => if single_form ps then Some (print_single x ps) else print_block x ps
   end.
 
-(* What NMTranPrinter cannot print as readable NM-TRAN (expressions are otherwise printed by sympy's
-   StrPrinter, an engine validated by the reference parser on every output):
-   - _print_Function prints only args[0]: a two-argument function (MOD, ...) loses its second argument
-     and the text is not valid NM-TRAN;
-   - _print_Pow with exponent -1 calls expr.base.make_args, which does not exist for an applied
-     function: 1/LOG(A) raises AttributeError — unless the power is a factor of a product (sympy's
-     _print_Mul prints the quotient itself). *)
-Definition F_POW_ID : id := 5%positive.
-Definition is_minus_one (e : expr) : bool := match e with Num q => Qeq_bool q (-1) | _ => false end.
-Definition is_fn1 (e : expr) : bool := match e with Fn1 _ _ => true | _ => false end.
-(* g_no_fn2: no two-argument function call *)
-Fixpoint no_fn2 (e : expr) : bool :=
-  match e with
-  | Num _ | Sym _ | PwNil => true
-  | Fn1 _ a | Neg a => no_fn2 a
-  | Fn2 f a b => Pos.eqb f F_POW_ID && no_fn2 a && no_fn2 b
-  | Add a b | Mul a b | Div a b => no_fn2 a && no_fn2 b
-  | PwCons c v rest => no_fn2c c && no_fn2 v && no_fn2 rest
-  end
-with no_fn2c (c : cond) : bool :=
-  match c with
-  | CTrue | CFalse => true
-  | CRel _ a b => no_fn2 a && no_fn2 b
-  | CAnd a b | COr a b => no_fn2c a && no_fn2c b
-  | CNot a => no_fn2c a
-  end.
-(* g_no_invfn: no  f(..)**(-1)  outside a product *)
-Fixpoint no_invfn (under_mul : bool) (e : expr) : bool :=
-  match e with
-  | Num _ | Sym _ | PwNil => true
-  | Fn1 _ a | Neg a => no_invfn false a
-  | Fn2 f a b =>
-      (negb (Pos.eqb f F_POW_ID) || under_mul || negb (is_fn1 a && is_minus_one b)) &&
-      no_invfn false a && no_invfn false b
-  | Add a b | Div a b => no_invfn false a && no_invfn false b
-  | Mul a b => no_invfn true a && no_invfn true b
-  | PwCons c v rest => no_invfnc c && no_invfn false v && no_invfn false rest
-  end
-with no_invfnc (c : cond) : bool :=
-  match c with
-  | CTrue | CFalse => true
-  | CRel _ a b => no_invfn false a && no_invfn false b
-  | CAnd a b | COr a b => no_invfnc a && no_invfnc b
-  | CNot a => no_invfnc a
-  end.
-Definition g_no_fn2 (e : expr) : bool := no_fn2 e.
-Definition g_no_invfn (e : expr) : bool := no_invfn false e.
-Definition g_printable (e : expr) : bool := g_no_fn2 e && g_no_invfn e.
-
 (* nmtran_assignment_string(assignment, defined_symbols, rvs, trans), for an Assignment X = e.
-   None = the call raises or the text is not readable NM-TRAN.
+   None = the text is not readable NM-TRAN (only for shapes sympy never builds).  Expressions are printed
+   by NMTranPrinter / sympy's StrPrinter, an engine validated by the reference reader on every output
+   (fixes 08b5390, 09fcba7: two-argument functions and 1/f(x) are printed like everything else).
    (The `sign` special case is not modelled: expressions containing sign() are outside the model.) *)
 Definition print_stmt (D : list id) (x : id) (e : expr) : option (list nmstmt) :=
-  if negb (g_printable e) then None
-  else if is_pw e then print_piecewise D x (pieces e) else Some [NS (SAssign x e)].
+  if is_pw e then print_piecewise D x (pieces e) else Some [NS (SAssign x e)].
 
 (* ---- guards ------------------------------------------------------------------------------- *)
 Definition conds_of (ps : list (cond * expr)) : list cond := map fst ps.
